@@ -22,4 +22,52 @@ PROPS = {
         "trusted_base": ["Cose.Spec.IanaSnapshot: hand-transcribed IANA registries (COSE, CWT, CBOR tags)"],
         "assumptions": ["the registry snapshot is correct"],
     },
+    "C08": {
+        "modules": ["Cose.Props.C08"],
+        "families": ["cbor", "map"],
+        "spec_ops": ["cbor.enc"],
+        "n_quick": 8000, "n_thorough": 800000,
+        "rule": "cbor.enc: random Go values (all integer kinds, nil/empty slices, nested CoseMaps of 0..320 int/text labels) encoded by the "
+                "library vs the Lean deterministic encoder; cbor.dec / map.unmarshal: random CBOR trees written by an independent "
+                "mini-encoder with non-shortest heads, indefinite lengths, duplicate keys, bad UTF-8, tags, exotic keys, then "
+                "truncation / bit-flip / insertion / huge-length mutations; distinct = distinct op line the model answered",
+        "trusted_base": ["model of fxamacker/cbor v2.7.0's accepted language (Cose.Cbor.Decode) tied by correspondence only",
+                         "RFC 8949 section 4.2.1 reading (Cose.Cbor.Encode)"],
+        "assumptions": ["floats, tags inside `any` values, negative integers below -2^63 are outside the model (answered `unmodelled`, counted)",
+                        "Go maps whose labels collide after encoding (int(1) and int64(1)) are outside the model"],
+    },
+    "C11": {
+        "modules": ["Cose.Props.C11"],
+        "families": ["prim:mac"],
+        "spec_ops": ["prim.mac", "prim.macverify"],
+        "n_quick": 3000, "n_thorough": 200000,
+        "rule": "8 MAC algorithms x random keys (1/12 of wrong size 0..80) x message lengths covering every residue mod 16/64/128, 0, "
+                "and 65279..70000; each tag then verified as is / truncated / extended / bit-flipped / for other data / under another key; "
+                "library answer compared with the Lean HMAC-SHA2 and AES-CBC-MAC reference",
+        "trusted_base": ["Lean SHA-2 and AES reference cores (validated by FIPS/RFC KATs as #guard and by this differential run)",
+                         "RFC 9053 tables 3 and 4 as transcribed in Props/C11.lean"],
+        "assumptions": ["SHA-2 output lengths are hypotheses of hmac_tag_length", "unforgeability of HMAC/CBC-MAC is not a theorem"],
+    },
+    "C12": {
+        "modules": ["Cose.Props.C12"],
+        "families": ["prim:aead"],
+        "spec_ops": ["prim.aead.enc", "prim.aead.dec"],
+        "n_quick": 2500, "n_thorough": 120000,
+        "rule": "12 AEAD algorithms x random keys (wrong sizes 1/15) x nonces (wrong lengths 1/12) x plaintext and additional-data lengths "
+                "0..70 / block boundaries / 65279,65280,65281,65535,65536,65537,70000; each ciphertext then decrypted as is or with a "
+                "bit flipped in ciphertext / nonce / aad / key, truncated or extended; library vs Lean GCM, RFC 3610 CCM, RFC 8439",
+        "trusted_base": ["Lean AES, GHASH, ChaCha20, Poly1305 reference cores (KATs as #guard + this differential run)",
+                         "RFC 3610 / RFC 9053 tables as transcribed in Constructions.lean and Props/C12.lean"],
+        "assumptions": ["AEAD security (tag unforgeability) is not a theorem; uniqueness theorems reduce acceptance of a changed ciphertext to a tag collision"],
+    },
+    "C13": {
+        "modules": ["Cose.Props.C13"],
+        "families": ["prim:kdf"],
+        "spec_ops": ["prim.hkdf256", "prim.hkdf512", "prim.hkdfaes", "prim.hkdfaes.read"],
+        "n_quick": 1500, "n_thorough": 60000,
+        "rule": "secrets/salts incl. empty, info lengths 0..200 (every residue mod 16), output lengths 0..255*HashLen+1 incl. limits, "
+                "random read chunkings of the Go reader; library vs Lean RFC 5869 over HMAC-SHA-256/512 and over AES-CBC-MAC",
+        "trusted_base": ["Lean SHA-2 / AES reference cores", "RFC 5869 as transcribed in Constructions.lean"],
+        "assumptions": ["the chunking law of the Go reader is established by correspondence (random chunkings), the prefix and limit laws by theorem"],
+    },
 }
